@@ -285,7 +285,14 @@ func Div(a, b *Term) *Term { // SMT div (Euclidean)
 		}
 		return t
 	}
-	return mk("div", SInt, a, b)
+	// symbolic divisor: rendered through `nldiv` (defined as div for the exact solvers,
+	// uninterpreted + lemmas for the abstraction solver)
+	t := mk("nldiv", SInt, a, b)
+	if a.lo != nil && a.lo.Sign() >= 0 && b.lo != nil && b.lo.Sign() > 0 {
+		t.lo = bi(0)
+		t.hi = a.hi
+	}
+	return t
 }
 
 func Mod(a, b *Term) *Term { // SMT mod (Euclidean, result >= 0)
@@ -717,7 +724,16 @@ func (r *Renderer) nlLemmas(m, x, y string) {
 	r.nls = append(r.nls, nlRec{m, x, y})
 }
 
-var _ = 0
+// nlBoundLemmas: m = x*y where y has a known constant interval [lo,hi]:
+// x >= 0 => lo*x <= m <= hi*x, and reversed for x <= 0.
+func (r *Renderer) nlBoundLemmas(m, x string, y *Term) {
+	if y.lo == nil || y.hi == nil {
+		return
+	}
+	lo, hi := smtInt(y.lo), smtInt(y.hi)
+	r.emit(fmt.Sprintf("(assert (=> (>= %s 0) (and (<= (* %s %s) %s) (<= %s (* %s %s)))))", x, lo, x, m, m, hi, x))
+	r.emit(fmt.Sprintf("(assert (=> (<= %s 0) (and (>= (* %s %s) %s) (>= %s (* %s %s)))))", x, lo, x, m, m, hi, x))
+}
 
 
 func NewRenderer(emit func(string)) *Renderer {
@@ -770,7 +786,7 @@ func (r *Renderer) Render(t *Term) string {
 		if op == "app" {
 			op = t.name
 		}
-		if op == "nlmul" {
+		if op == "nlmul" || op == "nldiv" {
 			r.sawNL = true
 		}
 		parts = append(parts, op)
@@ -784,6 +800,17 @@ func (r *Renderer) Render(t *Term) string {
 		} else {
 			s = "(" + strings.Join(parts, " ") + ")"
 		}
+		if op == "nldiv" {
+			r.ndef++
+			name := fmt.Sprintf("d!%d", r.ndef)
+			r.emit(fmt.Sprintf("(define-fun %s () %s %s)", name, t.sort, s))
+			r.defs[t] = name
+			x, y := parts[1], parts[2]
+			r.emit(fmt.Sprintf("(assert (=> (and (>= %s 0) (> %s 0)) (and (>= %s 0) (<= %s %s))))", x, y, name, name, x))
+			r.emit(fmt.Sprintf("(assert (=> (and (>= %s 0) (> %s %s)) (= %s 0)))", x, y, x, name))
+			r.emit(fmt.Sprintf("(assert (=> (= %s 1) (= %s %s)))", y, name, x))
+			return name
+		}
 		if t.size > defThreshold || op == "nlmul" {
 			r.ndef++
 			name := fmt.Sprintf("d!%d", r.ndef)
@@ -791,6 +818,8 @@ func (r *Renderer) Render(t *Term) string {
 			r.defs[t] = name
 			if op == "nlmul" {
 				r.nlLemmas(name, parts[1], parts[2])
+				r.nlBoundLemmas(name, parts[1], t.args[1])
+				r.nlBoundLemmas(name, parts[2], t.args[0])
 			}
 			return name
 		}
